@@ -77,11 +77,12 @@ theorem gateFn_total (t : String) (l : List Bool)
 
 theorem acyclic_unique' (c : Circuit) (hnd : c.nodeNames.Nodup)
     (htyped : ∀ p ∈ c.nodes, ∃ t, p.2.ty = some t ∧ t ∈ Expected.supported_types ∧ t ≠ "x")
-    (hsingle : ∀ n t, c.ty? n = some t → t ∈ ["buf", "not", "bb_input"] → (c.fanin n).length = 1)
+    (hsingle : ∀ n t, c.ty? n = some t → t ∈ ["buf", "not", "bb_input"] → (c.fanin n).length ≤ 1)
     (closed : ∀ e ∈ c.edges, c.has e.1 = true ∧ c.has e.2 = true)
     (rank : Name → Nat) (hrank : ∀ e ∈ c.edges, rank e.1 < rank e.2)
     (v w : Val) (hv : Consistent c v) (hw : Consistent c w)
-    (hfree : ∀ n, (c.ty? n = some "input" ∨ c.ty? n = some "bb_output") → v n = w n) :
+    (hfree : ∀ n, (c.ty? n = some "input" ∨ c.ty? n = some "bb_output" ∨
+      (∃ t, c.ty? n = some t ∧ t ∈ ["buf", "not", "bb_input"] ∧ c.fanin n = [])) → v n = w n) :
     ∀ n, c.has n = true → v n = w n := by
   intro n
   induction hk : rank n using Nat.strongRecOn generalizing n with
@@ -94,15 +95,21 @@ theorem acyclic_unique' (c : Circuit) (hnd : c.nodeNames.Nodup)
     · apply hfree
       rcases hf with rfl | rfl
       · exact Or.inl hty
-      · exact Or.inr hty
-    · have hmap : (c.fanin p.1).map v = (c.fanin p.1).map w := by
+      · exact Or.inr (Or.inl hty)
+    · by_cases hu : t ∈ ["buf", "not", "bb_input"] ∧ c.fanin p.1 = []
+      · exact hfree p.1 (Or.inr (Or.inr ⟨t, hty, hu.1, hu.2⟩))
+      have hmap : (c.fanin p.1).map v = (c.fanin p.1).map w := by
         apply List.map_congr_left
         intro f hf'
         have he := (mem_fanin c f p.1).mp hf'
         have hr := hrank _ he
         exact ih (rank f) (by rw [← hk]; exact hr) f rfl (closed _ he).1
       obtain ⟨b, hb⟩ := gateFn_total t ((c.fanin p.1).map v) hsup hx hf
-        (fun h => by rw [List.length_map]; exact hsingle p.1 t hty h)
+        (fun h => by
+          rw [List.length_map]
+          have h1 := hsingle p.1 t hty h
+          have h2 : (c.fanin p.1).length ≠ 0 := fun h0 => hu ⟨h, List.length_eq_zero_iff.mp h0⟩
+          omega)
       rw [hv p hp t ht b hb, hw p hp t ht b (by rw [← hmap]; exact hb)]
 
 /-! ## evaluation along a topological order -/
@@ -186,7 +193,9 @@ theorem acyclic_exists' (c : Circuit) (hnd : c.nodeNames.Nodup) (order : List Na
     (hperm : order.Perm c.nodeNames)
     (htopo : ∀ i j (hi : i < order.length) (hj : j < order.length), (order[i], order[j]) ∈ c.edges → i < j) :
     Consistent c (eval c order free) ∧
-    ∀ n, (c.ty? n = some "input" ∨ c.ty? n = some "bb_output") → eval c order free n = free n := by
+    ∀ n, (c.ty? n = some "input" ∨ c.ty? n = some "bb_output" ∨
+      (∃ t, c.ty? n = some t ∧ t ∈ ["buf", "not", "bb_input"] ∧ c.fanin n = [])) →
+      eval c order free n = free n := by
   have hndo : order.Nodup := hperm.nodup_iff.mpr hnd
   constructor
   · intro p hp t ht b hb
@@ -198,12 +207,19 @@ theorem acyclic_exists' (c : Circuit) (hnd : c.nodeNames.Nodup) (order : List Na
     simp only [hb]
   · intro n hn
     have hmem : n ∈ order := by
-      rcases hn with h | h <;>
-      · obtain ⟨p, hp, rfl, _⟩ := mem_of_ty c n _ h
+      have key : ∀ t, c.ty? n = some t → n ∈ order := by
+        intro t h
+        obtain ⟨p, hp, rfl, _⟩ := mem_of_ty c n _ h
         exact hperm.mem_iff.mpr ((mem_nodeNames c p.1).mpr ⟨p, hp, rfl⟩)
+      rcases hn with h | h | ⟨t, h, _, _⟩ <;> exact key _ h
     rw [eval_eq c order free hndo htopo n hmem]
     unfold stepVal
-    rcases hn with h | h <;> rw [h] <;> simp [gateFn]
+    rcases hn with h | h | ⟨t, h, ht, hnil⟩
+    · rw [h]; simp [gateFn]
+    · rw [h]; simp [gateFn]
+    · rw [h, hnil]
+      simp only [List.mem_cons, List.not_mem_nil, or_false] at ht
+      rcases ht with rfl | rfl | rfl <;> simp [gateFn]
 
 end Tseitin
 end CG
